@@ -5,6 +5,7 @@ import (
 	"fmt"
 	"math/big"
 	"sort"
+	"strings"
 
 	"0chain.net/chaincore/transaction"
 	"verif/lib/chainsim"
@@ -120,6 +121,9 @@ func stakeMonitor(s *chainsim.Step, v func(key, what string)) {
 	in := analyze(s, v)
 	w := s.W
 	pre, post := in.pre, in.post
+	if in.fn == "deleteFromDelegatePool" && !in.ok && strings.Contains(s.Txn.TransactionOutput, "token can only be unstaked till") {
+		s.Tag("unlock-refused-by-wall-clock-comparison")
+	}
 	if s.Err != nil {
 		if len(s.Diff) > 0 {
 			v("C11:rejected-txn-changed-state:"+in.cls, fmt.Sprintf("%d leaves changed by a rejected transaction", len(s.Diff)))
